@@ -507,7 +507,7 @@ func (a *Authenticator) ClientHandshake(ctx context.Context) (*SecurityNegotiati
 
 	if serverAddr != "" && a.config.Command >= 0 {
 		cmdStr := fmt.Sprintf("%d", a.config.Command)
-		if entry, ok := cache.LookupByCommand(a.config.SecurityTag, serverAddr, cmdStr); ok {
+		if entry, ok := cache.LookupByCommand(a.config.SecurityTag, serverAddr, cmdStr); ok && sessionHasUsableKey(entry) {
 			slog.Info(fmt.Sprintf("🔐 CLIENT: Found cached session %s for %s, attempting to resume...",
 				redactSessionID(entry.ID()), serverAddr), "destination", "cedar")
 
@@ -653,6 +653,13 @@ func (a *Authenticator) performFullAuthentication(ctx context.Context, cache *Se
 	return negotiation, nil
 }
 
+// sessionHasUsableKey reports whether a cached session carries a key this
+// endpoint can install on the stream (AES-GCM). Only such sessions are resumed.
+func sessionHasUsableKey(entry *SessionEntry) bool {
+	ki := entry.KeyInfo()
+	return ki != nil && len(ki.Data) > 0 && isAESGCM(CryptoMethod(ki.Protocol))
+}
+
 // handleSessionResumption handles a session resumption request from the client
 func (a *Authenticator) handleSessionResumption(ctx context.Context, sessionID string, clientAd *classad.ClassAd, command int) (*SecurityNegotiation, error) {
 	// Prefer the per-connection cache (set on the server's SecurityConfig) so a
@@ -675,6 +682,14 @@ func (a *Authenticator) handleSessionResumption(ctx context.Context, sessionID s
 				entry, ok, cache = e, true, global
 			}
 		}
+	}
+	// A session is resumed only under its key: an entry stored without one (no
+	// cipher was negotiated), or with a key this endpoint cannot install, would
+	// come back in the clear with the stored identity to anyone naming its id.
+	// Treat it exactly like an unknown session.
+	if ok && !sessionHasUsableKey(entry) {
+		slog.Info(fmt.Sprintf("🔐 SERVER: Session %s carries no usable key, refusing to resume it", redactSessionID(sessionID)), "destination", "cedar")
+		ok = false
 	}
 	if !ok {
 		slog.Info(fmt.Sprintf("🔐 SERVER: Session %s not found or expired", redactSessionID(sessionID)), "destination", "cedar")
